@@ -225,9 +225,9 @@ def main(argv):
     violations, known_hits, inconclusive = [], [], list(infra)
     for h, r in sorted(all_results.items()):
         st = (r["status"] or "").lower()
-        if r["covers_unsat"]:
+        if r["covers_unsat"] and not r["failed"]:
             inconclusive.append(f"{h}: vacuity witness not satisfied: {r['covers_unsat']}")
-        if r["undetermined"]:
+        if r["undetermined"] and not r["failed"]:
             inconclusive.append(f"{h}: undetermined checks {r['undetermined'][:3]}")
         if st == "success" and not r["failed"]:
             continue
